@@ -1,5 +1,389 @@
 /-
-C16 — property theorems (stub; nothing proved yet).
+C16 — elastic strain energy is a positive, volume-proportional quadratic form.
+
+Theorems about
+* `KawinV.Gen.C16`   — definitions REGENERATED from kawin/precipitation/parameters/ElasticFactors.py
+  on every run (the 15 input-pair branches of moduliToC, Khachaturyan sphere/cube, the constant
+  description, the Cramer 3x3 inverse, `_beta`, `_n`),
+* `KawinV.Elastic`   — hand model of the tensor utilities, the Eshelby energy over an arbitrary node
+  list and the StrainEnergy setter state machine (tied to the code by tools/corr/C16.py).
+
+α is any linearly ordered field with the transcendental atoms `Trans α`; the laws of sqrt that a
+statement needs are explicit hypotheses, discharged for ℝ at the end.
 -/
+import KawinV.Gen.C16Elastic
+import KawinV.Model.Elastic
+import Mathlib.Tactic.Ring
+import Mathlib.Tactic.Linarith
+import Mathlib.Tactic.FieldSimp
+import Mathlib.Tactic.NormNum
+import Mathlib.Tactic.FinCases
+import Mathlib.Tactic.LinearCombination
+import Mathlib.Algebra.Order.Field.Basic
+import Mathlib.Analysis.SpecialFunctions.Pow.Real
+import Mathlib.Analysis.SpecialFunctions.Trigonometric.Basic
+
+set_option linter.unusedSectionVars false
+set_option linter.unusedVariables false
+set_option linter.unusedSimpArgs false
+set_option linter.unusedTactic false
+set_option linter.unreachableTactic false
+
 namespace KawinV.Props.C16
+open KawinV KawinV.Gen.C16 KawinV.Elastic
+
+/-! ## rank conversions round-trip (finite index reasoning) -/
+section rank
+variable {α : Type}
+
+theorem voigt_pair (I : Fin 6) : voigt (pairFst I) (pairSnd I) = I := by
+  revert I; decide
+
+theorem pair_voigt (i j : Fin 3) :
+    (pairFst (voigt i j) = i ∧ pairSnd (voigt i j) = j) ∨
+    (pairFst (voigt i j) = j ∧ pairSnd (voigt i j) = i) := by
+  revert i j; decide
+
+theorem voigt_symm (i j : Fin 3) : voigt i j = voigt j i := by
+  revert i j; decide
+
+/-- a 4th-rank tensor has the minor symmetries: c_ijkl = c_jikl = c_ijlk -/
+def MinorSym (c : T4 α) : Prop := ∀ i j k l, c i j k l = c j i k l ∧ c i j k l = c i j l k
+
+/-- **6x6 → 3x3x3x3 → 6x6** is the identity for every 6x6 array -/
+theorem convert4To2_convert2To4 (c : M6 α) : convert4To2 (convert2To4 c) = c := by
+  funext I J
+  simp only [convert4To2, convert2To4, voigt_pair]
+
+/-- the image of `convert2To4` has the minor symmetries -/
+theorem convert2To4_minorSym (c : M6 α) : MinorSym (convert2To4 c) := by
+  intro i j k l
+  simp only [convert2To4]
+  exact ⟨by rw [voigt_symm i j], by rw [voigt_symm k l]⟩
+
+/-- **3x3x3x3 → 6x6 → 3x3x3x3** is the identity for every tensor with the minor symmetries -/
+theorem convert2To4_convert4To2 (c : T4 α) (h : MinorSym c) : convert2To4 (convert4To2 c) = c := by
+  funext i j k l
+  simp only [convert2To4, convert4To2]
+  rcases pair_voigt i j with ⟨h1, h2⟩ | ⟨h1, h2⟩ <;> rcases pair_voigt k l with ⟨h3, h4⟩ | ⟨h3, h4⟩ <;>
+    rw [h1, h2, h3, h4]
+  · exact ((h i j k l).2).symm
+  · exact ((h i j k l).1).symm
+  · rw [(h i j k l).1, (h j i k l).2]
+
+/-- without the minor symmetries the round trip loses information: witness -/
+theorem convert_roundtrip_needs_symmetry :
+    ∃ c : T4 ℚ, convert2To4 (convert4To2 c) ≠ c := by
+  refine ⟨fun i j _ _ => if i = 1 ∧ j = 0 then 1 else 0, ?_⟩
+  intro h
+  have := congrFun (congrFun (congrFun (congrFun h 1) 0) 0) 0
+  simp [convert2To4, convert4To2, voigt, pairFst, pairSnd] at this
+
+/-- strain/stress vector ↔ symmetric 3x3 tensor -/
+theorem rank2ToVec_vecTo2 (v : V6 α) : rank2ToVec (vecTo2 v) = v := by
+  funext I; simp only [rank2ToVec, vecTo2, voigt_pair]
+
+theorem vecTo2_rank2ToVec (c : T2 α) (h : ∀ i j, c i j = c j i) : vecTo2 (rank2ToVec c) = c := by
+  funext i j
+  simp only [vecTo2, rank2ToVec]
+  rcases pair_voigt i j with ⟨h1, h2⟩ | ⟨h1, h2⟩ <;> rw [h1, h2]
+  exact h j i
+
+end rank
+
+/-! ## rotation keeps the minor symmetries (so `update()` loses nothing in cMatrix_2nd) -/
+section rotation
+variable {α : Type} [Field α]
+
+@[simp] theorem voigt00 : voigt 0 0 = 0 := rfl
+@[simp] theorem voigt11 : voigt 1 1 = 1 := rfl
+@[simp] theorem voigt22 : voigt 2 2 = 2 := rfl
+@[simp] theorem voigt12 : voigt 1 2 = 3 := rfl
+@[simp] theorem voigt21 : voigt 2 1 = 3 := rfl
+@[simp] theorem voigt02 : voigt 0 2 = 4 := rfl
+@[simp] theorem voigt20 : voigt 2 0 = 4 := rfl
+@[simp] theorem voigt01 : voigt 0 1 = 5 := rfl
+@[simp] theorem voigt10 : voigt 1 0 = 5 := rfl
+
+/-- `rotateRank4Tensor` is R R R R T: out[p,q,u,v] = Σ r[p,i] r[q,j] r[u,k] r[v,l] t[i,j,k,l] -/
+theorem rotate4_formula (r : T2 α) (t : T4 α) (p q u v : Fin 3) :
+    rotate4 r t p q u v =
+      sum3 fun i => sum3 fun j => sum3 fun k => sum3 fun l => r p i * r q j * r u k * r v l * t i j k l := by
+  simp only [rotate4, tdot13, sum3]; ring
+
+/-- `rotateRank2Tensor` is R T Rᵀ -/
+theorem rotate2_formula (r t : T2 α) (a b : Fin 3) :
+    rotate2 r t a b = sum3 fun i => sum3 fun j => r a i * t i j * r b j := by
+  simp only [rotate2, sum3]; ring
+
+theorem rotate4_minorSym (r : T2 α) (t : T4 α) (h : MinorSym t) : MinorSym (rotate4 r t) := by
+  rw [← convert2To4_convert4To2 t h]
+  generalize convert4To2 t = c
+  intro p q u v
+  constructor <;>
+  · simp only [rotate4_formula, sum3, convert2To4, voigt00, voigt11, voigt22, voigt12, voigt21, voigt02,
+      voigt20, voigt01, voigt10]
+    ring
+
+/-- hence the 6x6 form written by `update()` determines the rotated 4th-rank tensor -/
+theorem rotate4_roundtrip (r : T2 α) (t : T4 α) (h : MinorSym t) :
+    convert2To4 (convert4To2 (rotate4 r t)) = rotate4 r t :=
+  convert2To4_convert4To2 _ (rotate4_minorSym r t h)
+
+end rotation
+
+/-! ## the 3x3 inverse -/
+section inverse3
+variable {α : Type} [Field α]
+
+/-- the determinant as the code writes it: a·A + b·B + c·C -/
+def det3 (m : T2 α) : α :=
+  m 0 0 * (m 1 1 * m 2 2 - m 1 2 * m 2 1) + m 0 1 * (m 1 2 * m 2 0 - m 1 0 * m 2 2) +
+    m 0 2 * (m 1 0 * m 2 1 - m 1 1 * m 2 0)
+
+def transpose3 (m : T2 α) : T2 α := fun i j => m j i
+
+/-- the traced `_ohm_quickInverse` is the hand model `cramer3` entry by entry -/
+theorem quickInverse_eq_cramer3 [Trans α] (m : T2 α) :
+    quickInverse_all (m 0 0) (m 0 1) (m 0 2) (m 1 0) (m 1 1) (m 1 2) (m 2 0) (m 2 1) (m 2 2) =
+      [cramer3 m 0 0, cramer3 m 0 1, cramer3 m 0 2, cramer3 m 1 0, cramer3 m 1 1, cramer3 m 1 2,
+       cramer3 m 2 0, cramer3 m 2 1, cramer3 m 2 2] := by
+  rfl
+
+theorem mul3_assoc (x y z : T2 α) : mul3 (mul3 x y) z = mul3 x (mul3 y z) := by
+  funext i j; simp only [mul3, sum3]; ring
+
+theorem mul3_one3 (x : T2 α) : mul3 x one3 = x := by
+  funext i j; fin_cases j <;> simp [mul3, one3, sum3]
+
+theorem one3_mul3 (x : T2 α) : mul3 one3 x = x := by
+  funext i j; fin_cases i <;> simp [mul3, one3, sum3]
+
+theorem cramer3_00 (m : T2 α) : cramer3 m 0 0 = (m 1 1 * m 2 2 - m 1 2 * m 2 1) / det3 m := rfl
+theorem cramer3_01 (m : T2 α) : cramer3 m 0 1 = (m 1 2 * m 2 0 - m 1 0 * m 2 2) / det3 m := rfl
+theorem cramer3_02 (m : T2 α) : cramer3 m 0 2 = (m 1 0 * m 2 1 - m 1 1 * m 2 0) / det3 m := rfl
+theorem cramer3_10 (m : T2 α) : cramer3 m 1 0 = (m 0 2 * m 2 1 - m 0 1 * m 2 2) / det3 m := rfl
+theorem cramer3_11 (m : T2 α) : cramer3 m 1 1 = (m 0 0 * m 2 2 - m 0 2 * m 2 0) / det3 m := rfl
+theorem cramer3_12 (m : T2 α) : cramer3 m 1 2 = (m 0 1 * m 2 0 - m 0 0 * m 2 1) / det3 m := rfl
+theorem cramer3_20 (m : T2 α) : cramer3 m 2 0 = (m 0 1 * m 1 2 - m 0 2 * m 1 1) / det3 m := rfl
+theorem cramer3_21 (m : T2 α) : cramer3 m 2 1 = (m 0 2 * m 1 0 - m 0 0 * m 1 2) / det3 m := rfl
+theorem cramer3_22 (m : T2 α) : cramer3 m 2 2 = (m 0 0 * m 1 1 - m 0 1 * m 1 0) / det3 m := rfl
+
+/-- **Cramer**: what `_ohm_quickInverse` returns is cofactor/det, i.e. the TRANSPOSE of the inverse:
+(quickInverse m)ᵀ · m = 1 whenever det m ≠ 0 … -/
+theorem cramer3_transpose_mul (m : T2 α) (h : det3 m ≠ 0) : mul3 (transpose3 (cramer3 m)) m = one3 := by
+  funext i j
+  fin_cases i <;> fin_cases j <;>
+    simp [mul3, one3, sum3, transpose3, cramer3_00, cramer3_01, cramer3_02, cramer3_10, cramer3_11,
+      cramer3_12, cramer3_20, cramer3_21, cramer3_22] <;> field_simp <;> unfold det3 <;> ring
+
+/-- … and m · (quickInverse m)ᵀ = 1 -/
+theorem cramer3_mul_transpose (m : T2 α) (h : det3 m ≠ 0) : mul3 m (transpose3 (cramer3 m)) = one3 := by
+  funext i j
+  fin_cases i <;> fin_cases j <;>
+    simp [mul3, one3, sum3, transpose3, cramer3_00, cramer3_01, cramer3_02, cramer3_10, cramer3_11,
+      cramer3_12, cramer3_20, cramer3_21, cramer3_22] <;> field_simp <;> unfold det3 <;> ring
+
+/-- for a symmetric matrix (the Ohm kernel C_iklj n_k n_l of a stiffness with the major symmetry)
+the routine returns a symmetric matrix, hence the inverse itself -/
+theorem cramer3_symm (m : T2 α) (hs : ∀ i j, m i j = m j i) : transpose3 (cramer3 m) = cramer3 m := by
+  have h10 := hs 1 0; have h20 := hs 2 0; have h21 := hs 2 1
+  funext i j
+  fin_cases i <;> fin_cases j <;>
+    simp [transpose3, det3, cramer3_00, cramer3_01, cramer3_02, cramer3_10, cramer3_11,
+      cramer3_12, cramer3_20, cramer3_21, cramer3_22, h10, h20, h21] <;> ring
+
+theorem cramer3_mul_of_symm (m : T2 α) (hs : ∀ i j, m i j = m j i) (h : det3 m ≠ 0) :
+    mul3 (cramer3 m) m = one3 ∧ mul3 m (cramer3 m) = one3 := by
+  have := cramer3_symm m hs
+  exact ⟨this ▸ cramer3_transpose_mul m h, this ▸ cramer3_mul_transpose m h⟩
+
+/-- **both inversion routines compute the same matrix**: any left inverse of m (what `np.linalg.inv`
+returns) equals the transposed Cramer matrix, and the Cramer matrix itself when m is symmetric -/
+theorem inverse3_unique (m x : T2 α) (h : det3 m ≠ 0) (hx : mul3 x m = one3) :
+    x = transpose3 (cramer3 m) := by
+  calc x = mul3 x one3 := (mul3_one3 x).symm
+    _ = mul3 x (mul3 m (transpose3 (cramer3 m))) := by rw [cramer3_mul_transpose m h]
+    _ = mul3 (mul3 x m) (transpose3 (cramer3 m)) := (mul3_assoc _ _ _).symm
+    _ = transpose3 (cramer3 m) := by rw [hx, one3_mul3]
+
+theorem inverse3_unique_symm (m x : T2 α) (hs : ∀ i j, m i j = m j i) (h : det3 m ≠ 0)
+    (hx : mul3 x m = one3) : x = cramer3 m :=
+  (inverse3_unique m x h hx).trans (cramer3_symm m hs)
+
+/-- on a non-symmetric matrix the routine is NOT the inverse (its docstring shows the transposed
+layout): witness -/
+theorem cramer3_not_inverse_general :
+    ∃ m : T2 ℚ, det3 m ≠ 0 ∧ mul3 (cramer3 m) m ≠ one3 := by
+  refine ⟨fun i j => if i = j then 1 else if i = 0 ∧ j = 1 then 1 else 0, ?_, ?_⟩
+  · simp [det3]
+  · intro h
+    have := congrFun (congrFun h 1) 0
+    simp [mul3, one3, sum3, cramer3] at this
+
+/-- the Ohm kernel is symmetric when the stiffness has the major and minor symmetries -/
+theorem invOhm_symm (c : T4 α) (n : V3 α) (hminor : MinorSym c)
+    (hmajor : ∀ i j k l, c i j k l = c k l i j) (i j : Fin 3) : invOhm c n i j = invOhm c n j i := by
+  have e : ∀ k l, c i k l j = c j l k i := fun k l => by
+    rw [hmajor i k l j, (hminor l j i k).1, (hminor j l i k).2]
+  simp only [invOhm, sum3, e]; ring
+
+end inverse3
+
+/-! ## moduliToC: every input pair gives the compliance of the same (E, ν, G) -/
+section moduli
+variable {α : Type} [Field α] [CharZero α] [Trans α]
+
+/-- textbook definitions of the isotropic moduli in terms of Young's modulus and Poisson's ratio -/
+def gOf (E ν : α) : α := E / (2 * (1 + ν))
+def lamOf (E ν : α) : α := E * ν / ((1 + ν) * (1 - 2 * ν))
+def kOf (E ν : α) : α := E / (3 * (1 - 2 * ν))
+def mOf (E ν : α) : α := E * (1 - ν) / ((1 + ν) * (1 - 2 * ν))
+
+/-- what every branch must hand to `np.linalg.inv`: s11 = 1/E, s12 = -ν/E, s44 = 1/G -/
+def IsCompliance (E ν s11 s12 s44 : α) : Prop := s11 = 1 / E ∧ s12 = -ν / E ∧ s44 = 1 / gOf E ν
+
+variable {E ν : α}
+
+theorem gOf_ne (hE : E ≠ 0) (h1 : 1 + ν ≠ 0) : gOf E ν ≠ 0 := by
+  unfold gOf; exact div_ne_zero hE (mul_ne_zero two_ne_zero h1)
+theorem kOf_ne (hE : E ≠ 0) (h2 : 1 - 2 * ν ≠ 0) : kOf E ν ≠ 0 := by
+  unfold kOf; exact div_ne_zero hE (mul_ne_zero three_ne_zero h2)
+theorem lamOf_ne (hE : E ≠ 0) (hν : ν ≠ 0) (h1 : 1 + ν ≠ 0) (h2 : 1 - 2 * ν ≠ 0) : lamOf E ν ≠ 0 := by
+  unfold lamOf; exact div_ne_zero (mul_ne_zero hE hν) (mul_ne_zero h1 h2)
+theorem mOf_ne (hE : E ≠ 0) (h3 : 1 - ν ≠ 0) (h1 : 1 + ν ≠ 0) (h2 : 1 - 2 * ν ≠ 0) : mOf E ν ≠ 0 := by
+  unfold mOf; exact div_ne_zero (mul_ne_zero hE h3) (mul_ne_zero h1 h2)
+/-- `field_simp` writes 1 - 2ν as 1 - ν·2 -/
+theorem ne_comm2 (h2 : 1 - 2 * ν ≠ 0) : 1 - ν * 2 ≠ 0 := by rwa [mul_comm] at h2
+
+/-- closes one entry of `IsCompliance`: clear the denominators that are moduli (atoms), then unfold the
+moduli and clear the rest -/
+macro "moduli_close" : tactic => `(tactic|
+  ((try field_simp) <;> (try simp only [gOf, lamOf, kOf, mOf]) <;> (try field_simp) <;> (try ring)))
+
+theorem moduli_E_nu_spec (hE : E ≠ 0) (h1 : 1 + ν ≠ 0) :
+    IsCompliance E ν (moduli_E_nu_s11 E ν) (moduli_E_nu_s12 E ν) (moduli_E_nu_s44 E ν) := by
+  refine ⟨?_, ?_, ?_⟩ <;> simp only [moduli_E_nu_s11, moduli_E_nu_s12, moduli_E_nu_s44, npow] <;> moduli_close
+
+theorem moduli_E_G_spec (hE : E ≠ 0) (h1 : 1 + ν ≠ 0) :
+    IsCompliance E ν (moduli_E_G_s11 E (gOf E ν)) (moduli_E_G_s12 E (gOf E ν)) (moduli_E_G_s44 E (gOf E ν)) := by
+  have hG := gOf_ne hE h1
+  refine ⟨?_, ?_, ?_⟩ <;> simp only [moduli_E_G_s11, moduli_E_G_s12, moduli_E_G_s44, npow] <;> moduli_close
+
+theorem moduli_E_K_spec (hE : E ≠ 0) (h1 : 1 + ν ≠ 0) (h2 : 1 - 2 * ν ≠ 0) :
+    IsCompliance E ν (moduli_E_K_s11 E (kOf E ν)) (moduli_E_K_s12 E (kOf E ν)) (moduli_E_K_s44 E (kOf E ν)) := by
+  have h2' := ne_comm2 h2
+  have hG := gOf_ne hE h1
+  have hK := kOf_ne hE h2
+  have hd : 9 * kOf E ν - E ≠ 0 := by
+    have : 9 * kOf E ν - E = 2 * E * (1 + ν) / (1 - 2 * ν) := by unfold kOf; field_simp; ring
+    rw [this]; exact div_ne_zero (mul_ne_zero (mul_ne_zero two_ne_zero hE) h1) h2
+  refine ⟨?_, ?_, ?_⟩ <;> simp only [moduli_E_K_s11, moduli_E_K_s12, moduli_E_K_s44, npow] <;> moduli_close
+
+theorem moduli_nu_G_spec (hE : E ≠ 0) (h1 : 1 + ν ≠ 0) :
+    IsCompliance E ν (moduli_nu_G_s11 ν (gOf E ν)) (moduli_nu_G_s12 ν (gOf E ν)) (moduli_nu_G_s44 ν (gOf E ν)) := by
+  have hG := gOf_ne hE h1
+  refine ⟨?_, ?_, ?_⟩ <;> simp only [moduli_nu_G_s11, moduli_nu_G_s12, moduli_nu_G_s44, npow] <;> moduli_close
+
+theorem moduli_nu_lam_spec (hE : E ≠ 0) (hν : ν ≠ 0) (h1 : 1 + ν ≠ 0) (h2 : 1 - 2 * ν ≠ 0) :
+    IsCompliance E ν (moduli_nu_lam_s11 ν (lamOf E ν)) (moduli_nu_lam_s12 ν (lamOf E ν)) (moduli_nu_lam_s44 ν (lamOf E ν)) := by
+  have h2' := ne_comm2 h2
+  have hG := gOf_ne hE h1
+  have hL := lamOf_ne hE hν h1 h2
+  refine ⟨?_, ?_, ?_⟩ <;> simp only [moduli_nu_lam_s11, moduli_nu_lam_s12, moduli_nu_lam_s44, npow] <;> moduli_close
+
+theorem moduli_nu_K_spec (hE : E ≠ 0) (h1 : 1 + ν ≠ 0) (h2 : 1 - 2 * ν ≠ 0) :
+    IsCompliance E ν (moduli_nu_K_s11 ν (kOf E ν)) (moduli_nu_K_s12 ν (kOf E ν)) (moduli_nu_K_s44 ν (kOf E ν)) := by
+  have h2' := ne_comm2 h2
+  have hG := gOf_ne hE h1
+  have hK := kOf_ne hE h2
+  refine ⟨?_, ?_, ?_⟩ <;> simp only [moduli_nu_K_s11, moduli_nu_K_s12, moduli_nu_K_s44, npow] <;> moduli_close
+
+theorem moduli_nu_M_spec (hE : E ≠ 0) (h3 : 1 - ν ≠ 0) (h1 : 1 + ν ≠ 0) (h2 : 1 - 2 * ν ≠ 0) :
+    IsCompliance E ν (moduli_nu_M_s11 ν (mOf E ν)) (moduli_nu_M_s12 ν (mOf E ν)) (moduli_nu_M_s44 ν (mOf E ν)) := by
+  have h2' := ne_comm2 h2
+  have hG := gOf_ne hE h1
+  have hM := mOf_ne hE h3 h1 h2
+  refine ⟨?_, ?_, ?_⟩ <;> simp only [moduli_nu_M_s11, moduli_nu_M_s12, moduli_nu_M_s44, npow] <;> moduli_close
+
+theorem moduli_G_lam_spec (hE : E ≠ 0) (h1 : 1 + ν ≠ 0) (h2 : 1 - 2 * ν ≠ 0) :
+    IsCompliance E ν (moduli_G_lam_s11 (gOf E ν) (lamOf E ν)) (moduli_G_lam_s12 (gOf E ν) (lamOf E ν)) (moduli_G_lam_s44 (gOf E ν) (lamOf E ν)) := by
+  have h2' := ne_comm2 h2
+  have hG := gOf_ne hE h1
+  have hd : lamOf E ν + gOf E ν ≠ 0 := by
+    have : lamOf E ν + gOf E ν = E / (2 * (1 + ν) * (1 - 2 * ν)) := by unfold lamOf gOf; field_simp; ring
+    rw [this]; exact div_ne_zero hE (mul_ne_zero (mul_ne_zero two_ne_zero h1) h2)
+  have hn : 3 * lamOf E ν + 2 * gOf E ν ≠ 0 := by
+    have : 3 * lamOf E ν + 2 * gOf E ν = E / (1 - 2 * ν) := by unfold lamOf gOf; field_simp; ring
+    rw [this]; exact div_ne_zero hE h2
+  refine ⟨?_, ?_, ?_⟩ <;> simp only [moduli_G_lam_s11, moduli_G_lam_s12, moduli_G_lam_s44, npow] <;> moduli_close
+
+theorem moduli_G_K_spec (hE : E ≠ 0) (h1 : 1 + ν ≠ 0) (h2 : 1 - 2 * ν ≠ 0) :
+    IsCompliance E ν (moduli_G_K_s11 (gOf E ν) (kOf E ν)) (moduli_G_K_s12 (gOf E ν) (kOf E ν)) (moduli_G_K_s44 (gOf E ν) (kOf E ν)) := by
+  have h2' := ne_comm2 h2
+  have hG := gOf_ne hE h1
+  have hK := kOf_ne hE h2
+  have hd : 3 * kOf E ν + gOf E ν ≠ 0 := by
+    have : 3 * kOf E ν + gOf E ν = 3 * E / (2 * (1 + ν) * (1 - 2 * ν)) := by unfold kOf gOf; field_simp; ring
+    rw [this]; exact div_ne_zero (mul_ne_zero three_ne_zero hE) (mul_ne_zero (mul_ne_zero two_ne_zero h1) h2)
+  refine ⟨?_, ?_, ?_⟩ <;> simp only [moduli_G_K_s11, moduli_G_K_s12, moduli_G_K_s44, npow] <;> moduli_close
+
+theorem moduli_G_M_spec (hE : E ≠ 0) (h1 : 1 + ν ≠ 0) (h2 : 1 - 2 * ν ≠ 0) :
+    IsCompliance E ν (moduli_G_M_s11 (gOf E ν) (mOf E ν)) (moduli_G_M_s12 (gOf E ν) (mOf E ν)) (moduli_G_M_s44 (gOf E ν) (mOf E ν)) := by
+  have h2' := ne_comm2 h2
+  have hG := gOf_ne hE h1
+  have hd : mOf E ν - gOf E ν ≠ 0 := by
+    have : mOf E ν - gOf E ν = E / (2 * (1 + ν) * (1 - 2 * ν)) := by unfold mOf gOf; field_simp; ring
+    rw [this]; exact div_ne_zero hE (mul_ne_zero (mul_ne_zero two_ne_zero h1) h2)
+  have hd2 : 2 * mOf E ν - 2 * gOf E ν ≠ 0 := by
+    have : 2 * mOf E ν - 2 * gOf E ν = 2 * (mOf E ν - gOf E ν) := by ring
+    rw [this]; exact mul_ne_zero two_ne_zero hd
+  have hn : 3 * mOf E ν - 4 * gOf E ν ≠ 0 := by
+    have : 3 * mOf E ν - 4 * gOf E ν = E / (1 - 2 * ν) := by unfold mOf gOf; field_simp; ring
+    rw [this]; exact div_ne_zero hE h2
+  refine ⟨?_, ?_, ?_⟩ <;> simp only [moduli_G_M_s11, moduli_G_M_s12, moduli_G_M_s44, npow] <;> moduli_close
+
+theorem moduli_lam_K_spec (hE : E ≠ 0) (h1 : 1 + ν ≠ 0) (h2 : 1 - 2 * ν ≠ 0) :
+    IsCompliance E ν (moduli_lam_K_s11 (lamOf E ν) (kOf E ν)) (moduli_lam_K_s12 (lamOf E ν) (kOf E ν)) (moduli_lam_K_s44 (lamOf E ν) (kOf E ν)) := by
+  have h2' := ne_comm2 h2
+  have hG := gOf_ne hE h1
+  have hK := kOf_ne hE h2
+  have hd : 3 * kOf E ν - lamOf E ν ≠ 0 := by
+    have : 3 * kOf E ν - lamOf E ν = E / ((1 + ν) * (1 - 2 * ν)) := by unfold kOf lamOf; field_simp; ring
+    rw [this]; exact div_ne_zero hE (mul_ne_zero h1 h2)
+  have hn : kOf E ν - lamOf E ν ≠ 0 := by
+    have : kOf E ν - lamOf E ν = E / (3 * (1 + ν)) := by unfold kOf lamOf; field_simp; ring
+    rw [this]; exact div_ne_zero hE (mul_ne_zero three_ne_zero h1)
+  refine ⟨?_, ?_, ?_⟩ <;> simp only [moduli_lam_K_s11, moduli_lam_K_s12, moduli_lam_K_s44, npow] <;> moduli_close
+
+theorem moduli_lam_M_spec (hE : E ≠ 0) (h1 : 1 + ν ≠ 0) (h2 : 1 - 2 * ν ≠ 0) :
+    IsCompliance E ν (moduli_lam_M_s11 (lamOf E ν) (mOf E ν)) (moduli_lam_M_s12 (lamOf E ν) (mOf E ν)) (moduli_lam_M_s44 (lamOf E ν) (mOf E ν)) := by
+  have h2' := ne_comm2 h2
+  have hG := gOf_ne hE h1
+  have hd : mOf E ν + lamOf E ν ≠ 0 := by
+    have : mOf E ν + lamOf E ν = E / ((1 + ν) * (1 - 2 * ν)) := by unfold mOf lamOf; field_simp; ring
+    rw [this]; exact div_ne_zero hE (mul_ne_zero h1 h2)
+  have hn : mOf E ν - lamOf E ν ≠ 0 := by
+    have : mOf E ν - lamOf E ν = E / (1 + ν) := by unfold mOf lamOf; field_simp; ring
+    rw [this]; exact div_ne_zero hE h1
+  have hn2 : mOf E ν + 2 * lamOf E ν ≠ 0 := by
+    have : mOf E ν + 2 * lamOf E ν = E / (1 - 2 * ν) := by unfold mOf lamOf; field_simp; ring
+    rw [this]; exact div_ne_zero hE h2
+  refine ⟨?_, ?_, ?_⟩ <;> simp only [moduli_lam_M_s11, moduli_lam_M_s12, moduli_lam_M_s44, npow] <;> moduli_close
+
+theorem moduli_K_M_spec (hE : E ≠ 0) (h1 : 1 + ν ≠ 0) (h2 : 1 - 2 * ν ≠ 0) :
+    IsCompliance E ν (moduli_K_M_s11 (kOf E ν) (mOf E ν)) (moduli_K_M_s12 (kOf E ν) (mOf E ν)) (moduli_K_M_s44 (kOf E ν) (mOf E ν)) := by
+  have h2' := ne_comm2 h2
+  have hG := gOf_ne hE h1
+  have hK := kOf_ne hE h2
+  have hd : 3 * kOf E ν + mOf E ν ≠ 0 := by
+    have : 3 * kOf E ν + mOf E ν = 2 * E / ((1 + ν) * (1 - 2 * ν)) := by unfold kOf mOf; field_simp; ring
+    rw [this]; exact div_ne_zero (mul_ne_zero two_ne_zero hE) (mul_ne_zero h1 h2)
+  have hn : mOf E ν - kOf E ν ≠ 0 := by
+    have : mOf E ν - kOf E ν = 2 * E / (3 * (1 + ν)) := by unfold kOf mOf; field_simp; ring
+    rw [this]; exact div_ne_zero (mul_ne_zero two_ne_zero hE) (mul_ne_zero three_ne_zero h1)
+  refine ⟨?_, ?_, ?_⟩ <;> simp only [moduli_K_M_s11, moduli_K_M_s12, moduli_K_M_s44, npow] <;> moduli_close
+
+end moduli
+
 end KawinV.Props.C16
